@@ -64,6 +64,10 @@ def slice(ctx: fw.Ctx) -> fw.Outcome:
             tag = gen.header_tag(victim.inst, victim.diff)
             lines, skip = [], False
             body = rng.choice(BAD_BODIES)
+            if rng.random() < 0.35:  # bare bracket lines naming other sections of this chart (they are body text, not headers)
+                other = rng.choice([t for t, _ in R.sections] + ["Whatever"])
+                body = [f"[{other}]", "  5 = N 4 0"] + (["{", "  6 = N 0 0"] if rng.random() < 0.3 else [])
+                body = [b for b in body if b not in ("{", "}")]
             secs = []
             for t, b in R.sections:
                 secs.append((t, body if t == tag else b))
@@ -85,7 +89,7 @@ def slice(ctx: fw.Ctx) -> fw.Outcome:
         out.case(fw.h([kind, text, sel]), kind != "full" and (kind != "sel" or bool(sel)), {"kind": kind, "want": sel} if kind == "sel" else None,
                  tags=[kind, x.split("|")[0][:14]])
         out.traces += 1
-        if x != m:
+        if common.framing_proj(x) != common.framing_proj(m):
             p_, q_ = fw.first_diff(x, m)
             out.corr_mismatch(f"{kind} parse (want={sel})", rp, impl=p_, model=q_)
         if kind == "sel" and not ref.startswith("E "):
